@@ -233,6 +233,28 @@ def rhs_side_effect_family(rng):
                                                           ("func", "ভিতর", [], [("return", G.num(3))]),
                                                           ("assign", "ত", [G.num(0)], G.call("ভিতর")), ("return", V("পুরনো"))]),
                                    ("decl", "ক", G.lst(G.num(1), G.num(2))), ("print", G.call("কাজ", V("ক"))), ("print", V("ক"))]))
+    # 7. an index expression changes the path it is part of: all index expressions are evaluated first (left to right), then the
+    #    path is walked from the variable's container — a later index expression that inserts a row in front, replaces an inner
+    #    container (list or record) or re-binds the root decides which container the write lands in
+    scen.append(("index-inserts-row", [("decl", "ত", G.lst(G.lst(G.num(1), G.num(2)), G.lst(G.num(3), G.num(4)))), ("decl", "সারি০", G.idx(V("ত"), G.num(0))),
+                                        ("func", "সামনে", [], [("expr", G.call("_লিস্ট-পুশ", V("ত"), G.num(0), G.lst(G.num(7), G.num(7)))), ("return", G.num(1))]),
+                                        ("assign", "ত", [G.num(0), G.call("সামনে")], G.num(99)),
+                                        ("print", V("ত")), ("print", G.idx(G.idx(V("ত"), G.num(0)), G.num(1))), ("print", V("সারি০"))]))
+    scen.append(("index-replaces-inner", [("decl", "ত", G.lst(G.lst(G.num(1), G.num(2)), G.lst(G.num(3), G.num(4)))), ("decl", "পুরনো", G.idx(V("ত"), G.num(0))),
+                                           ("func", "বদল", [], [("assign", "ত", [G.num(0)], G.lst(G.num(5), G.num(6))), ("return", G.num(1))]),
+                                           ("assign", "ত", [G.num(0), G.call("বদল")], G.num(99)),
+                                           ("print", V("ত")), ("print", V("পুরনো"))]))
+    scen.append(("index-rebinds-root", [("decl", "x", G.lst(G.num(10), G.num(20), G.num(30))), ("decl", "আগের", V("x")),
+                                         ("func", "নতুন-মূল", [], [("assign", "x", [], G.lst(G.num(1), G.num(2), G.num(3))), ("return", G.num(0))]),
+                                         ("assign", "x", [G.call("নতুন-মূল")], G.num(5)),
+                                         ("print", V("x")), ("print", G.idx(V("x"), G.num(0))), ("print", V("আগের"))]))
+    scen.append(("index-replaces-record", [("decl", "ন", G.rec((G.s("a"), G.rec((G.s("n"), G.num(1)))))), ("decl", "আগের", G.idx(V("ন"), G.s("a"))),
+                                            ("func", "চাবি", [], [("assign", "ন", [G.s("a")], G.rec((G.s("n"), G.num(2)))), ("return", G.s("n"))]),
+                                            ("assign", "ন", [G.s("a"), G.call("চাবি")], G.num(42)),
+                                            ("print", G.idx(G.idx(V("ন"), G.s("a")), G.s("n"))), ("print", G.idx(V("আগের"), G.s("n")))]))
+    scen.append(("first-index-effect-second-bad", [("decl", "ত", G.lst(G.lst(G.num(1)), G.lst(G.num(2)))),
+                                                    ("func", "বলো", [], [("print", G.s("সূচক-গোনা")), ("return", G.num(0))]),
+                                                    ("assign", "ত", [G.num(5), G.call("বলো")], G.num(9)), ("print", V("ত"))]))
     for name, prog in scen:
         for mode in ("lines", "oneline"):
             out.append(prog_case("rhs-side-effect", prog, mode=mode, info={"scenario": name}))
